@@ -177,6 +177,10 @@ class DIMSEMessage(object):
         # type: (int,int) -> Iterator[pdu.PDataTfPDU]
         """Returns the encoded message as a series of P-DATA-TF PDU objects.
 
+        Command set is encoded (and dataset is picked up) when method is called, while PDUs
+        themselves are produced lazily. Message can be safely modified and sent again, before
+        returned generator is exhausted (it is consumed by the DUL service thread).
+
         :param pc_id: Presentation Context ID
         :type pc_id: int
         :param max_pdu_length: maximum PDU length
@@ -185,7 +189,10 @@ class DIMSEMessage(object):
         :rtype: pdu.PDataTfPDU
         """
         encoded_command_set = dsutils.encode(self.command_set, True, True)
+        return self._fragments(encoded_command_set, self.data_set, pc_id, max_pdu_length)
 
+    @staticmethod
+    def _fragments(encoded_command_set, data_set, pc_id, max_pdu_length):
         # fragment command set
         for item, bit in fragment(encoded_command_set, max_pdu_length, 1, 3):
             # send only one pdv per p-data primitive
@@ -193,22 +200,22 @@ class DIMSEMessage(object):
             yield pdu.PDataTfPDU([value_item])
 
         # fragment data set
-        if self.data_set:
-            if isinstance(self.data_set, bytes):
+        if data_set:
+            if isinstance(data_set, bytes):
                 # got dataset as byte array
                 is_file = False
-                gen = fragment(self.data_set, max_pdu_length, 0, 2)
+                gen = fragment(data_set, max_pdu_length, 0, 2)
             else:
                 # assume that dataset is in file-like object
                 is_file = True
-                gen = fragment_file(self.data_set, max_pdu_length, 0, 2)
+                gen = fragment_file(data_set, max_pdu_length, 0, 2)
             try:
                 for item, bit in gen:
                     value_item = pdu.PresentationDataValueItem(pc_id, struct.pack('b', bit) + item)
                     yield pdu.PDataTfPDU([value_item])
             finally:
                 if is_file:
-                    self.data_set.close()  # type: ignore
+                    data_set.close()  # type: ignore
 
     def set_length(self):
         """Sets DIMSE message length attribute in command dataset"""
